@@ -79,10 +79,24 @@ func discoverHarnesses(cfg *Config) ([]*Harness, map[string][]byte, error) {
 			target = filepath.Join(cfg.Repo, rel, filepath.Base(path))
 		}
 		overlay[target] = src
+		more, err := parseHarnessSource(path, rel, src)
+		if err != nil {
+			return err
+		}
+		hs = append(hs, more...)
+		return nil
+	})
+	sort.Slice(hs, func(i, j int) bool { return hs[i].Name < hs[j].Name })
+	return hs, overlay, err
+}
+
+func parseHarnessSource(path, rel string, src []byte) ([]*Harness, error) {
+	var hs []*Harness
+	{
 		fset := token.NewFileSet()
 		f, err := parser.ParseFile(fset, path, src, parser.ParseComments)
 		if err != nil {
-			return fmt.Errorf("parse %s: %v", path, err)
+			return nil, fmt.Errorf("parse %s: %v", path, err)
 		}
 		for _, d := range f.Decls {
 			fd, ok := d.(*ast.FuncDecl)
@@ -140,10 +154,8 @@ func discoverHarnesses(cfg *Config) ([]*Harness, map[string][]byte, error) {
 				hs = append(hs, h)
 			}
 		}
-		return nil
-	})
-	sort.Slice(hs, func(i, j int) bool { return hs[i].Name < hs[j].Name })
-	return hs, overlay, err
+	}
+	return hs, nil
 }
 
 type Loaded struct {
@@ -392,6 +404,9 @@ func (r *HarnessResult) merge(p *HarnessResult) {
 	r.Blocked += p.Blocked
 	r.UnwindCuts += p.UnwindCuts
 	r.FeasibleCombos += p.FeasibleCombos
+	r.RacePairs += p.RacePairs
+	r.PassBoundHit += p.PassBoundHit
+	r.RacePathCaps += p.RacePathCaps
 	r.ConcCombos += p.ConcCombos
 	r.Events += p.Events
 	r.Candidates = append(r.Candidates, p.Candidates...)
